@@ -499,3 +499,39 @@ class ProgModel:
 
 def predict(prog, method, inm=None):
     return ProgModel(method, inm).run(resolve_prog(prog))
+
+
+# ----------------------------------------------------------------------------- slow transport
+def roundtrip_slow(app, data, segments=None, server_kwargs=None, grants=()):
+    """Like httpharness.roundtrip, but the transport accepts output only as far as write credit was
+    granted: the request is fed with zero credit, then every entry of `grants` (cumulative byte counts,
+    ascending) raises the total credit to that value and lets the loop go quiescent; finally the credit
+    becomes unlimited.  Returns (wire, closed, logs, trace) where trace[i] = (total credit, bytes on the
+    wire, closed) after step i.  What the client finally receives must not depend on the schedule."""
+    from . import httpharness, vtime
+
+    async def scenario():
+        s = httpharness.ServerSession(app, **(server_kwargs or {}))
+        s.stream.write_credit = 0
+        granted = 0
+        trace = []
+        await s.send(data, segments)
+        trace.append((0, len(s.stream.wire), s.closed))
+        for target in grants:
+            if target > granted and not s.closed:
+                s.stream.write_credit += target - granted
+                granted = target
+                await s.settle()
+                trace.append((granted, len(s.stream.wire), s.closed))
+        s.stream.write_credit = None
+        await s.settle()
+        wire, closed = s.wire, s.closed
+        trace.append((None, len(wire), closed))
+        if not s.closed:
+            s.stream.close()
+            await s.settle()
+        return wire, closed, trace
+
+    with httpharness.LogCapture() as logs:
+        wire, closed, trace = vtime.run(scenario)
+    return wire, closed, logs, trace
